@@ -43,8 +43,14 @@ def find_body(src, header_re, what):
 
 
 class Skeleton:
-    def __init__(self, name, body, atoms, effects, rets, scans=(), flags=("w",), drop_decl=True):
+    def __init__(self, name, body, atoms, effects, rets, scans=(), flags=("w",), sets=None, consts=None):
+        """sets: effect text -> (atom text, [terms]): the statement gives the atom a new value -- the next term of the list for each
+        occurrence of the statement in the source ("true"/"false" or the name of a fresh parameter);
+        consts: effect text -> (variable, value): `return variable` then returns that value"""
         self.name, self.atoms, self.effects, self.rets = name, atoms, set(effects), rets
+        self.sets = {k: (v[0], list(v[1])) for k, v in (sets or {}).items()}
+        self.consts = dict(consts or {})
+        self.node_term = {}
         self.scans = list(scans)
         self.flags = list(flags)
         self.ast = cmini.parse_body(name, body)
@@ -53,10 +59,14 @@ class Skeleton:
         self.seen_effects = set()
 
     # ---- conditions ----
-    def cond(self, e):
+    def cond(self, e, env=None):
+        env = env or {}
         txt = cmini.show(e)
         if txt in self.atoms:
             lean, kind = self.atoms[txt]
+            lean = env.get("a:" + txt, lean)
+            if lean in ("true", "false"):
+                return "True" if (lean == "true") == (kind == "bool") else "False"
             if lean not in self.used_atoms:
                 self.used_atoms.append(lean)
             if kind == "ptr":
@@ -66,13 +76,15 @@ class Skeleton:
             raise PipelineError("%s: atom kind %s" % (self.name, kind))
         k = e[0]
         if k == "un" and e[1] == "!":
-            return "(¬ %s)" % self.cond(e[2])
+            return "(¬ %s)" % self.cond(e[2], env)
         if k == "bin" and e[1] in ("&&", "||"):
-            return "(%s %s %s)" % (self.cond(e[2]), "∧" if e[1] == "&&" else "∨", self.cond(e[3]))
+            return "(%s %s %s)" % (self.cond(e[2], env), "∧" if e[1] == "&&" else "∨", self.cond(e[3], env))
+        if k == "bin" and e[1] == "!=" and cmini.show(("bin", "==", e[2], e[3])) in self.atoms:
+            return "(¬ %s)" % self.cond(("bin", "==", e[2], e[3]), env)
         if k == "bin" and e[1] in ("==", "!=") and e[3] == ("id", "NULL"):
             t2 = cmini.show(e[2])
             if t2 in self.atoms and self.atoms[t2][1] == "ptr":
-                lean = self.atoms[t2][0]
+                lean = env.get("a:" + t2, self.atoms[t2][0])
                 if lean not in self.used_atoms:
                     self.used_atoms.append(lean)
                 return "(%s = %s)" % (lean, "true" if e[1] == "==" else "false")
@@ -114,6 +126,9 @@ class Skeleton:
     def result(self, val, env):
         return "(%s)" % ", ".join([val] + [env[f] for f in self.flags])
 
+    def expected_effects(self):
+        return self.effects | set(self.sets)
+
     def stmts(self, ss, env, ind):
         pad = "  " * ind
         if not ss:
@@ -121,11 +136,29 @@ class Skeleton:
         s, rest = ss[0], list(ss[1:])
         if s[0] == "block" and not self.is_effect(s):
             return self.stmts(list(s[1]) + rest, env, ind)
+        if s[0] == "expr" and cmini.show(s[1]) in self.sets:
+            t = cmini.show(s[1])
+            atom, terms = self.sets[t]
+            if id(s) not in self.node_term:
+                if not terms:
+                    raise PipelineError("%s: more occurrences of `%s` than expected" % (self.name, t))
+                self.node_term[id(s)] = terms.pop(0)
+            self.seen_effects.add(t)
+            env = dict(env)
+            env["a:" + atom] = self.node_term[id(s)]
+            return self.stmts(rest, env, ind)
+        if s[0] == "expr" and cmini.show(s[1]) in self.consts:
+            var, val = self.consts[cmini.show(s[1])]
+            env = dict(env)
+            env["c:" + var] = val
+            return self.stmts(rest, env, ind)
         if self.is_effect(s):
             return self.stmts(rest, env, ind)
         k = s[0]
         if k == "return":
             t = cmini.show(s[1]) if s[1] is not None else "void"
+            if "c:" + t in env:
+                return [pad + self.result(env["c:" + t], env)]
             if t not in self.rets:
                 raise PipelineError("%s: `return %s` is not among the known results" % (self.name, t))
             v = self.rets[t]
@@ -146,7 +179,7 @@ class Skeleton:
                 raise PipelineError("%s: jwt_copy_error" % self.name)
             return self.stmts(rest, self.flag_set(env, "copied"), ind)
         if k == "if":
-            c = self.cond(s[1])
+            c = self.cond(s[1], env)
             th = self.stmts([s[2]] + rest, env, ind + 1)
             el = self.stmts(([s[3]] if s[3] else []) + rest, env, ind + 1)
             return [pad + "if %s then" % c] + th + [pad + "else"] + el
@@ -178,7 +211,7 @@ class Skeleton:
         missing = [a for a in self.used_atoms if a not in [p for p, _ in params]]
         if missing:
             raise PipelineError("%s: tests on %s have no parameter" % (self.name, missing))
-        unused = self.effects - self.seen_effects
+        unused = self.expected_effects() - self.seen_effects
         if unused:
             raise PipelineError("%s: expected data movements are gone: %s" % (self.name, sorted(unused)[:3]))
         sig = "def %s %s : %s :=" % (lean_name, " ".join("(%s : %s)" % p for p in params), " × ".join(["Nat"] + ["Bool"] * len(self.flags)))
@@ -258,6 +291,61 @@ def generate(repo):
          "jwt-common.c `jwt_checker_verify` (FUNC(verify)): `tokenEmpty` = `strlen(token)` is 0; `jwtNull` / `claimsCopyNull` = an allocation failed; "
          "`cbRetZero` = the callback returned 0; `setkeyFails` = `__setkey_check` on what the callback left refused (it has written the message); "
          "`errFlag` = the checker's error flag after `jwt_verify_complete` and the copy")
+    # ================= the builder side =================
+    enc = strip_c(open(os.path.join(repo, "libjwt/jwt-encode.c")).read())
+    # ---- jwt_head_setup ----
+    sk = Skeleton("jwt_head_setup", find_body(enc, r"\nint\s+jwt_head_setup\s*\(", "jwt_head_setup"),
+                  atoms={"(jwt->alg != JWT_ALG_NONE)": ("algSigned", "bool"), "jwt_header_set(jwt, &jval)": ("?", "bool"),
+                         "(jval->error != JWT_VALUE_ERR_EXIST)": ("typErrNotExist", "bool")},
+                  effects={"decl jval", "jval->replace = 1"},
+                  sets={'jwt_set_SET_STR(&jval, "typ", "JWT")': ("jwt_header_set(jwt, &jval)", ["typSetFails"]),
+                        'jwt_set_SET_STR(&jval, "alg", jwt_alg_str(jwt->alg))': ("jwt_header_set(jwt, &jval)", ["algSetFails"])},
+                  rets={"0": "0", "1": "1"})
+    emit(sk, "headSetup", [("algSigned", "Bool"), ("typSetFails", "Bool"), ("typErrNotExist", "Bool"), ("algSetFails", "Bool")],
+         "jwt-encode.c `jwt_head_setup`: `typSetFails` = setting the default `typ` (without replace) returned non-zero, `typErrNotExist` = for another "
+         "reason than the member being there already; `algSetFails` = setting `alg` (with replace) failed")
+    # ---- jwt_encode ----
+    sk = Skeleton("jwt_encode", find_body(enc, r"static\s+int\s+jwt_encode\s*\(", "jwt_encode"),
+                  atoms={"out": ("outArgNull", "ptr"), "ret": ("?", "bool"), "(head_len <= 0)": ("hdrEncFails", "bool"), "(payload_len <= 0)": ("payEncFails", "bool"),
+                         "buf": ("bufNull", "ptr"), "(jwt->alg == JWT_ALG_NONE)": ("algNone", "bool"), "(ret < 0)": ("sigEncFails", "bool"), "*out": ("outAllocNull", "ptr")},
+                  effects={"decl head = NULL", "decl payload = NULL", "decl sig = NULL", "decl buf = NULL", "decl ret", "decl head_len", "decl payload_len", "decl sig_len",
+                           "*out = NULL", "head_len = jwt_base64uri_encode(&head, buf, (int)strlen(buf))", "jwt_freemem(buf)",
+                           "payload_len = jwt_base64uri_encode(&payload, buf, (int)strlen(buf))", "buf = jwt_malloc(((head_len + payload_len) + 3))",
+                           "strcpy(buf, head)", 'strcat(buf, ".")', "strcat(buf, payload)", "*out = buf", "ret = jwt_base64uri_encode(&buf, sig, sig_len)",
+                           "ret = (((strlen(head) + strlen(payload)) + strlen(buf)) + 3)", "*out = jwt_malloc(ret)", 'sprintf(*out, "%s.%s.%s", head, payload, buf)'},
+                  sets={"ret = write_js(jwt->headers, &buf)": ("ret", ["hdrDumpFails"]), "ret = write_js(jwt->claims, &buf)": ("ret", ["payDumpFails"]),
+                        "ret = jwt_sign(jwt, &sig, &sig_len, buf, strlen(buf))": ("ret", ["signFails"])},
+                  consts={"ret = 1": ("ret", "1"), "ret = 0": ("ret", "0")},
+                  rets={"0": "0", "1": "1", "ret": "signRet"})
+    emit(sk, "encode", [("outArgNull", "Bool"), ("hdrDumpFails", "Bool"), ("hdrEncFails", "Bool"), ("payDumpFails", "Bool"), ("payEncFails", "Bool"), ("bufNull", "Bool"),
+                        ("algNone", "Bool"), ("signFails", "Bool"), ("signRet", "Nat"), ("sigEncFails", "Bool"), ("outAllocNull", "Bool")],
+         "jwt-encode.c `jwt_encode`: the `…Fails` / `…Null` parameters are the outcomes of the serialisation, the base64 coding, the allocations and of `jwt_sign` "
+         "(`signRet` = what it returned when it failed)")
+    # ---- jwt_builder_generate ----
+    body = find_body(com_raw, r"\nchar\s*\*\s*FUNC\s*\(\s*generate\s*\)\s*\(", "FUNC(generate)")
+    body = re.sub(r"^[ \t]*#[^\n]*", " ", body, flags=re.M)
+    body = body.replace("JWT_CONFIG_DECLARE(config);", "jwt_config_t config;").replace("jwt_auto_t", "jwt_t")
+    JOK = "(jval->error == JWT_VALUE_ERR_NONE)"
+    sk = Skeleton("jwt_builder_generate", body,
+                  atoms={"__cmd": ("cmdNull", "ptr"), "jwt": ("jwtNull", "ptr"), "jwt->headers": ("hdrCopyNull", "ptr"), "jwt->claims": ("clCopyNull", "ptr"),
+                         "(__cmd->c->claims & JWT_CLAIM_IAT)": ("iatOn", "bool"), "(__cmd->c->claims & JWT_CLAIM_NBF)": ("nbfOn", "bool"),
+                         "(__cmd->c->claims & JWT_CLAIM_EXP)": ("expOn", "bool"), JOK: ("?", "bool"), "__cmd->c->cb": ("cbNull", "ptr"),
+                         "__cmd->c->cb(jwt, &config)": ("cbRetNonzero", "bool"), "__setkey_check(__cmd, config->alg, config->key)": ("setkeyFails", "bool"),
+                         "jwt_head_setup(jwt)": ("headSetupFails", "bool")},
+                  effects={"decl config", "decl jwt = NULL", "decl out = NULL", "decl jval", "decl tm = time(NULL)", "jwt = jwt_malloc(sizeof(* jwt))",
+                           "memset(jwt, 0, sizeof(* jwt))", "jwt->headers = json_deep_copy(__cmd->c->headers)", "jwt->claims = json_deep_copy(__cmd->c->payload)",
+                           'jwt_set_SET_INT(&jval, "iat", (long)tm)', "jval->replace = 1", 'jwt_set_SET_INT(&jval, "nbf", (long)(tm + __cmd->c->nbf))',
+                           'jwt_set_SET_INT(&jval, "exp", (long)(tm + __cmd->c->exp))', "config->alg = __cmd->c->alg",
+                           "if (((config->alg == JWT_ALG_NONE) && __cmd->c->key)) …", "config->alg = __cmd->c->key->alg", "config->key = __cmd->c->key",
+                           "config->ctx = __cmd->c->cb_ctx", "if (((config->alg == JWT_ALG_NONE) && config->key)) …", "config->alg = config->key->alg",
+                           "jwt->alg = config->alg", "jwt->key = config->key", "out = jwt_encode_str(jwt)"},
+                  sets={"jval->error = JWT_VALUE_ERR_NONE": (JOK, ["true"]), "jwt_claim_set(jwt, &jval)": (JOK, ["iatSetOk", "nbfSetOk", "expSetOk"])},
+                  rets={"NULL": "0", "out": "outNonNull"}, flags=("w", "copied"))
+    emit(sk, "builderGenerate", [("cmdNull", "Bool"), ("jwtNull", "Bool"), ("hdrCopyNull", "Bool"), ("clCopyNull", "Bool"), ("iatOn", "Bool"), ("iatSetOk", "Bool"),
+                                 ("nbfOn", "Bool"), ("nbfSetOk", "Bool"), ("expOn", "Bool"), ("expSetOk", "Bool"), ("cbNull", "Bool"), ("cbRetNonzero", "Bool"),
+                                 ("setkeyFails", "Bool"), ("headSetupFails", "Bool"), ("outNonNull", "Nat")],
+         "jwt-common.c `jwt_builder_generate` (FUNC(generate)): result 0 = NULL, `outNonNull` = what `jwt_encode_str` returned (0 = NULL); `…SetOk` = the "
+         "`jwt_claim_set` of iat / nbf / exp left `jval.error` at NONE; `setkeyFails` = `__setkey_check` on what the callback left refused")
     out.append("end Jwt.Generated.Pipeline")
     return "\n".join(out) + "\n", info
 
